@@ -39,6 +39,14 @@ def disk_specs(tier):
         spec = dict(t0)
         spec.update(grammar=gr, prince=D.PRINCE)
         out.append(spec)
+    # letters whose upper case is two characters next to the words their damaged forms would collide with
+    t1 = dict(t0)
+    t1.update(A={2: [('a\u00df', .4), ('\u00dfa', .3), ('as', .2), ('sa', .1)], 3: [('ma\u00df', .5), ('mas', .3), ('\u01f0ab', .2)]},
+              C={2: [('LL', .4), ('UU', .3), ('LU', .2), ('UL', .1)], 3: [('LLL', .4), ('LLU', .3), ('UUU', .2), ('ULL', .1)]})
+    for gr in ([('A2D1', .6), ('A3', .4)], [('A3A2', .5), ('D1A3O1', .5)]):
+        spec = dict(t1)
+        spec.update(grammar=gr, prince=D.PRINCE)
+        out.append(spec)
     step = 29 if tier == 'quick' else 5
     out += list(D.specs(tier))[::step]
     return out
